@@ -11,6 +11,7 @@ for f, q in ((FB, "Fiber.getRankAttrs"), (RK, "Rank.getFormat"), (RA, "RankAttrs
     contract(f, q, inline=True)
 
 BOOK_SAME = "self._saved_pos == old(self._saved_pos) and self._saved_count == old(self._saved_count) and self._saved_dist == old(self._saved_dist)"
+ALLOCD = "forall(lambda k: allocated(result.seq[k][1]), 0, len(result.seq))"
 ASC = "forall(lambda a, b: implies(0 <= a and a < b and b < len(result.seq), result.seq[a][0] < result.seq[b][0]))"
 STORED = ("forall(lambda k: exists(lambda j: 0 <= j < len(self.coords) and self.coords[j] == result.seq[k][0] and self.payloads[j] is result.seq[k][1]), "
           "0, len(result.seq))")
@@ -22,7 +23,7 @@ contract(F, "iterOccupancy", cases=[dict(self="Fiber"), dict(self="Fiber", tick=
              # a valid shortcut: nothing before it would have been yielded
              "isnone(start_pos) or (0 <= val(start_pos) < len(self.coords) and forall(lambda j: pempty(self.payloads[j], self.g_default), 0, val(start_pos)))"])},
          modifies=BOOK,
-         ensures={"C07": [ASC, STORED, "unchanged_list(self.coords)", "unchanged_list(self.payloads)",
+         ensures={"C07": [ASC, STORED, ALLOCD, "unchanged_list(self.coords)", "unchanged_list(self.payloads)",
                           "implies(isnone(start_pos), " + BOOK_SAME + ")"]},
          note="iterRange(None, None): every stored non-empty element, ascending")
 
@@ -34,7 +35,7 @@ contract(F, "iterActiveShape", cases=[dict(self="Fiber"), dict(self="Fiber", tic
          requires=["wf(self)", "not Metrics.collecting"] + LEAFBOX,
          modifies=BOOK,
          ensures={"C07": [IN_ACTIVE, "len(result.seq) == (0 if self.g_active1 <= self.g_active0 else self.g_active1 - self.g_active0)",
-                          "forall(lambda k: typeis(result.seq[k][1], 'Payload'), 0, len(result.seq))",
+                          "forall(lambda k: typeis(result.seq[k][1], 'Payload'), 0, len(result.seq))", ALLOCD,
                           "unchanged_list(self.coords)", "unchanged_list(self.payloads)", BOOK_SAME]},
          note="iterRangeShape over the active range (ghost g_active0/1 = getActive(), tier T): every coordinate of the range, stored box or fresh default")
 
@@ -48,7 +49,7 @@ contract(F, "__iter__",
                    "%s == 'C' or (%s == 'U' and %s)" % (FMT, FMT, " and ".join("(%s)" % x for x in LEAFBOX))],
          modifies=[],
          ensures={"C07 C04": [
-             ASC,
+             ASC, ALLOCD,
              "implies(self.g_leaf and %s, forall(lambda k: typeis(result.seq[k][1], 'Payload'), 0, len(result.seq)))" % BOXES,
              # a presented coordinate is a stored one (compressed) or lies in the active range (uncompressed formats walk the range)
              "forall(lambda k: member(result.seq[k][0], self.coords) or (self.g_active0 <= result.seq[k][0] and result.seq[k][0] < self.g_active1), 0, len(result.seq))",
